@@ -30,6 +30,7 @@ ASSUMPTIONS = ['output names contain no NUL, tab or newline (ninja paths) and a 
 B = 262144                      # sizeof(LineReader::buf_)
 HEADER = b'# ninja log v7\n'
 KNOWN_ID = 'append-after-tear-merges-records'
+LONG_ALPHA = bytes(b'abcdefgh /.\xc3\xa9-_01'[i % 17] for i in range(256))
 
 # ------------------------------------------------------------------------------------------------------------------
 # records and protocol
@@ -138,12 +139,15 @@ def judge_after_tear(prefix, s2, hist, load, vd, recompacted_expected=False, dea
     written = collections.defaultdict(set)
     for r in list(hist) + list(s2): written[r.name].add(val(r))
     merged = py_parse_line(frag + py_render(s2[0])[:-1]) if (s2 and frag) else None
+    torn_rec = hist[len(complete)] if (frag and len(prefix) > 14 and len(complete) < len(hist)) else None      # the record the tear interrupted
     eaten = s2[0].name if (s2 and frag.count(b'\t') >= 1) else None     # the record glued to a fragment with >= 1 tab is lost
     for n, v in T.items():
         if n not in written: vd.stats['tear:garbage-name entry (harmless)'] += 1; continue
         if latest.get(n) == v: continue
         if v in written[n]:
-            if n == eaten: vd.stats['tear:stale entry of the eaten record (safe)'] += 1
+            if torn_rec is not None and n == torn_rec.name and v == val(torn_rec) and frag.count(b'\t') >= 4:
+                vd.stats['tear:the interrupted record itself, complete but for its newline (truthful)'] += 1
+            elif n == eaten: vd.stats['tear:stale entry of the eaten record (safe)'] += 1
             else: vd.bad.append(('stale', 'output %r keeps an older record (%s) although a later one was written completely' % (n, fmt_rec(n, v))))
             continue
         if (v[3], v[2]) in {(w[3], w[2]) for w in written[n]}:
@@ -151,8 +155,10 @@ def judge_after_tear(prefix, s2, hist, load, vd, recompacted_expected=False, dea
         what = 'entry %s: this (hash, mtime) pair was never written for that output (written: %s)' % (
             fmt_rec(n, v), '; '.join(fmt_rec(n, w) for w in sorted(written[n])[:4]) or 'nothing')
         if merged and merged == (n, v):
-            torn_name = frag.split(b'\t')[3] if frag.count(b'\t') >= 3 else None
-            rank = 0 if (frag.count(b'\t') == 3 and any(r.name == frag.split(b'\t')[3] for r in hist) and n != torn_name) else 1 if frag.count(b'\t') == 3 else 2
+            torn = torn_rec.name if torn_rec is not None else None
+            tabs = frag.count(b'\t')
+            newer = all(v[2] > w[2] for w in written[n])
+            rank = 0 if (tabs == 3 and torn != n and newer and torn == frag.split(b'\t')[3]) else 1 if (tabs == 3 and torn != n) else 2 if tabs < 3 else 3
             vd.finding.append((rank, 'log torn after %r (no newline is written before the next append), next record %r => %s' % (
                 frag[-60:], py_render(s2[0])[:60], what)))
             vd.stats['tear:merged line gives a real output an unwritten (hash, mtime) [tabs in fragment=%d]' % min(frag.count(b'\t'), 4)] += 1
@@ -458,7 +464,7 @@ def _run(ctx, runner):
     longs = []                                  # names around and beyond the 256 KiB line buffer
     for extra in ([-1, 0, 1, 40000] if quick else [-2, -1, 0, 1, 2, 63, 40000, 340000]):
         # line = "5\t6\t7\t" + name + "\tabc\n" = name + 11 bytes; extra = line length - B
-        nm = b'long/' + bytes(rnd.choice(b'abcdefgh \xc3\xa9') for _ in range(B + extra - 11 - 5))
+        nm = b'long/' + rnd.randbytes(B + extra - 11 - 5).translate(LONG_ALPHA)
         longs.append(([b'before', nm, b'after'], [Rec(b'before', 1, 2, 3, 0x11, None), Rec(nm, 5, 6, 7, 0xabc, None), Rec(b'after', 8, 9, 10, 0, b'after-cmd')]))
     g.cmds[b'after-cmd'] = None
     follow = {}
